@@ -306,6 +306,10 @@ wrapped_interval<Number> wrapped_interval<Number>::Shl(uint64_t k) const {
     return *this;
 
   wrapint::bitwidth_t b = get_bitwidth(__LINE__);
+  if (k >= b) {
+    // all the bits are shifted out (and Trunc cannot keep 0 bits)
+    return wrapped_interval<Number>(wrapint(0, b));
+  }
   wrapped_interval<Number> y = Trunc(b - k);
   if (!y.is_top()) {
     wrapint wk(k, b);
